@@ -105,12 +105,12 @@ def run(ctx):
     prev_text = None
     for _ in range(rounds):
         text, comps = gen_changelog(rng)
-        for form in ("str", "lines", "lines+nl"):
-            src = text if form == "str" else (text.split("\n")[:-1] if form == "lines" else text.splitlines(True))
+        for form in ("str", "lines", "lines+nl", "str, allow_empty_author"):
+            src = text if form.startswith("str") else (text.split("\n")[:-1] if form == "lines" else text.splitlines(True))
             try:
                 with warnings.catch_warnings():
                     warnings.simplefilter("error")
-                    cl = real.Changelog(src, strict=True)
+                    cl = real.Changelog(src, strict=True, **({"allow_empty_author": True} if "allow" in form else {}))
                 out = str(cl)
             except Exception as e:
                 t.failed("strict parsing of a well-formed changelog raised / warned: %r" % (e,), text=text, form=form)
